@@ -59,7 +59,11 @@ def main():
         return 2
     if args.replay:
         common.repo_src()
-        return plugin.replay(json.load(open(args.replay)))
+        obj = json.load(open(args.replay))
+        extname = (obj.get('failure') or {}).get('extension')
+        if extname:
+            return importlib.import_module(extname).replay(obj)
+        return plugin.replay(obj)
     try:
         return run(plugin, prop, args.tier, seed, t0)
     except Exception:
@@ -86,6 +90,18 @@ def run(plugin, prop, tier, seed, t0):
     b = common.lake_build([plugin.MODULE])
     # 3. audit
     audit = common.audit_theorems(plugin.MODULE, plugin.NAMESPACE, plugin.THEOREMS, b)
+    # extensions of the same property (plugin.EXTENSIONS = ['props.ext.<name>', …]): each is a module with MODULE / NAMESPACE / THEOREMS and its own
+    # run(ctx) / replay(obj); its theorem file is built and audited the same way and its results are merged below
+    all_theorems = list(plugin.THEOREMS)
+    extensions = [importlib.import_module(n) for n in getattr(plugin, 'EXTENSIONS', [])]
+    for ext in extensions:
+        be = common.lake_build([ext.MODULE])
+        if not be['ok']:
+            b = dict(b, ok=False, log=b['log'] + '\n' + be['log'])
+        tag = ext.NAMESPACE.split('.')[-1]
+        for t, r_ in common.audit_theorems(ext.MODULE, ext.NAMESPACE, ext.THEOREMS, be).items():
+            audit[tag + '.' + t] = r_
+        all_theorems += [tag + '.' + t for t in ext.THEOREMS]
     forbidden = common.grep_forbidden(common.lean_sources())
     undischarged = {t: r['why'] for t, r in audit.items() if not r['ok']}
     if forbidden:
@@ -96,7 +112,7 @@ def run(plugin, prop, tier, seed, t0):
     checker_cmd = b['cmd'] + ' && lake env lean <#print axioms of each listed theorem>'
     leanchecker = None
     if tier == 'thorough' and b['ok']:
-        rc, out = common.sh(['lake', 'env', 'leanchecker', plugin.MODULE], cwd=common.LEAN, timeout=1800)
+        rc, out = common.sh(['lake', 'env', 'leanchecker', plugin.MODULE] + [em['module'] for em in extra_modules], cwd=common.LEAN, timeout=1800)
         leanchecker = {'rc': rc, 'tail': out[-300:]}
         checker_cmd += ' && lake env leanchecker ' + plugin.MODULE
         if rc != 0:
@@ -115,6 +131,22 @@ def run(plugin, prop, tier, seed, t0):
     mismatches = res.get('mismatches', [])
     failures = res.get('failures', [])
     cov = res['coverage']
+    for ext in extensions:
+        rext = ext.run(ctx)
+        for f in rext.get('failures', []):
+            f.setdefault('extension', ext.__name__)
+        mismatches = mismatches + rext.get('mismatches', [])
+        failures = failures + rext.get('failures', [])
+        res['corr_cases'] = res.get('corr_cases', 0) + rext.get('corr_cases', 0)
+        res['assumptions'] = res.get('assumptions', []) + rext.get('assumptions', [])
+        res['observations'] = res.get('observations', []) + rext.get('observations', [])
+        ec = rext['coverage']
+        cov.evaluations += ec.evaluations
+        cov.nontrivial |= ec.nontrivial
+        for k_, v_ in ec.hist.items():
+            cov.hist[k_] = cov.hist.get(k_, 0) + v_
+        cov.samples += ec.samples[:2]
+        cov.rule += ' || ' + ec.rule
     # 7. decide
     ledger = common.load_ledger()
     known = [e for e in ledger.get('findings', []) if e['property'] == prop]
@@ -182,7 +214,7 @@ def run(plugin, prop, tier, seed, t0):
         print(l)
     covd = cov.as_dict()
     covd.update({
-        'obligations': len(plugin.THEOREMS),
+        'obligations': len(all_theorems),
         'discharged': sum(1 for r in audit.values() if r['ok']),
         'checker_cmd': checker_cmd,
         'trusted_base': common.TRUSTED_BASE + res.get('trusted_extra', []),
